@@ -724,12 +724,12 @@ Section R.
     tuple_offsets (s :: s' :: sr) (en :: er) = (if gis_fixed s then [] else [en]) ++ tuple_offsets (s' :: sr) er.
   Proof. reflexivity. Qed.
 
-  Lemma read_last_at st a b w o X t : 1 <= w -> r_pos st <= a -> a + w <= b ->
+  Lemma read_last_at st a b w o X t : 1 <= w -> a + w <= b ->
     o < 2 ^ (8 * N.of_nat (N.to_nat w)) ->
     r_rest st = X ++ le_bytes (N.to_nat w) o ++ t -> r_pos st + len X + w = b ->
     read_last st a b w = Ok o.
   Proof.
-    intros Hw Ha Hab Ho Hr Hb. unfold read_last.
+    intros Hw Hab Ho Hr Hb. unfold read_last.
     destruct (N.eqb_spec (b - a) 0); [lia|]. destruct (N.ltb_spec (b - a) w); [lia|].
     rewrite from_idx_ge by lia. replace (b - w - r_pos st) with (len X) by lia.
     rewrite Hr, dropN_app_len.
@@ -779,10 +779,13 @@ Section R.
       destruct (Hx fuel sub) as (sub' & Hdec & Hsub'); try assumption; try lia.
       { congruence. } { now rewrite Hsdep. } { unfold gfits. now rewrite Hsdep. }
       { rewrite (Hpad sub Hsp0 Hs0). fold px. destruct Hss as (t2 & Ht2 & Hb2). exists t2. split; [assumption|]. lia. }
-      rewrite Hdec. cbn [bind]. eexists. split; [rewrite !frev_rev; reflexivity|].
+      rewrite Hdec. cbn [bind struct_loop].
+      replace (frev (x :: acc)) with (frev acc ++ [x]) by (rewrite !frev_rev; reflexivity).
+      eexists. split; [reflexivity|].
       cbn [adv rset_dep r_pos]. rewrite Hsub', Hsl. lia.
     - (* a member followed by others *)
       set (l := y :: l') in *. set (ps' := gparts e l (off + len px)) in *.
+      change (match map gsig l with [] => true | _ :: _ => false end) with false. cbv iota.
       assert (Hto : toffs = (if gis_fixed (gsig x) then [] else [off + len px]) ++ tuple_offsets (map gsig l) (ends_from (off + len px) ps')).
       { subst toffs. rewrite Hps. reflexivity. }
       set (toffs' := tuple_offsets (map gsig l) (ends_from (off + len px) ps')) in *.
@@ -814,14 +817,15 @@ Section R.
         cbn [app] in Hto. rewrite Hto in *. cbn [rev length] in *. rewrite offs_enc_app in Hrest. cbn [offs_enc map concat] in Hrest.
         rewrite app_nil_r in Hrest.
         inversion Hfit as [|? ? Hfit1 Hfit']; subst.
+        assert (Hwk : w * N.of_nat (S (length toffs')) = w * N.of_nat (length toffs') + w)
+          by (rewrite Nat2N.inj_succ, N.mul_succ_r; reflexivity).
         set (end_ := r_pos st + (len px + len (concat ps')) + w * N.of_nat (S (length toffs'))) in *.
         assert (Hend_le : end_ <= r_len st) by lia.
         destruct (N.ltb_spec end_ start); [lia|]. destruct (N.ltb_spec (r_len st) end_); [lia|]. cbn [orb].
         rewrite (read_last_at st start end_ w (off + len px) (px ++ concat ps' ++ offs_enc w (rev toffs')) R); try assumption; try lia.
-        2:{ subst end_. nia. }
         2:{ rewrite Hrest. now rewrite <- !app_assoc. }
         2:{ rewrite !len_app, len_offs_enc, rev_length. subst end_. lia. }
-        cbn [bind]. destruct (N.ltb_spec end_ w); [subst end_; nia|].
+        cbn [bind]. destruct (N.ltb_spec end_ w); [subst end_; lia|]. cbn [bind].
         destruct (sub_starts st (off + len px + start) (gsig x) (r_dep st) px)
           as (sub & Hsub & Hss & Hs0 & Hsl & Hsp0 & Hse & Hssig & Hsdep & _); try lia.
         { exists (concat ps' ++ offs_enc w (rev toffs') ++ le_bytes (N.to_nat w) (off + len px) ++ R). rewrite Hrest. now rewrite <- !app_assoc. }
@@ -839,5 +843,75 @@ Section R.
         * fold ps' toffs' in Hrun. cbn [adv r_pos] in Hrun.
           replace (end_ - w) with (r_pos st + len px + len (concat ps') + w * N.of_nat (length toffs')) by (subst end_; lia).
           rewrite Hrun. exists st'. split; [|exact Hp']. rewrite !frev_rev. cbn [rev]. now rewrite <- app_assoc.
+  Qed.
+
+  Lemma tuple_offsets_le sigs ps off : Forall (fun o => o <= off + len (concat ps)) (tuple_offsets sigs (ends_from off ps)).
+  Proof.
+    revert sigs off. induction ps as [|b r IH]; intros sigs off.
+    - destruct sigs as [|s [|s' sr]]; constructor.
+    - destruct sigs as [|s [|s' sr]]; try constructor.
+      cbn [ends_from concat]. rewrite tuple_offsets_cons, len_app. apply Forall_app. split.
+      + destruct (gis_fixed s); constructor; [lia|constructor].
+      + eapply Forall_impl; [|apply IH]. cbn. intros o Ho. lia.
+  Qed.
+
+  Lemma rt_struct_var l : Forall rt l -> forallb gis_fixed (map gsig l) = false -> rt (GStruct l).
+  Proof.
+    intros HF Hfx fuel st Hfuel He Hw Hp Hr Hs Hd Hf Hl Hst. destruct fuel as [|f]; [cbn in Hfuel; lia|].
+    rewrite gheight_struct in Hfuel.
+    pose proof (pre_align e _ Hp Hw) as Hal. cbn [gsig] in Hal, Hs, Hst |- *.
+    destruct (pre_node e _ Hp) as (_ & _ & _ & _ & Hsmall).
+    cbn [gwf] in Hw. apply andb_true_iff in Hw as [Hnel Hwl].
+    assert (Hlne : l <> []) by (destruct l; [discriminate|discriminate]).
+    unfold pre in Hp. rewrite all_nodes_struct in Hp. apply andb_true_iff in Hp as [_ Hpl].
+    apply rtok_struct in Hr.
+    unfold gfits in Hf. cbn [gdepth_ok] in Hf. apply andb_true_iff in Hf as [Hf Hfl]. apply andb_true_iff in Hf as [Hf1 Hf2].
+    apply N.leb_le in Hf1, Hf2.
+    destruct (inc_struct_good _ Hd Hf1 Hf2) as (d' & Hinc & Hd' & Hs' & Ha' & Ht').
+    set (sigs := map gsig l) in *. rewrite galign_struct in *. set (A := galigns sigs) in *.
+    assert (HA : A <> 0) by apply galigns_nz.
+    set (ps := gparts e l 0) in *. set (data := concat ps) in *. set (toffs := tuple_offsets sigs (ends_from 0 ps)) in *.
+    assert (Hgvb : gvb e (GStruct l) = data ++ framing (len data) (rev toffs)).
+    { rewrite gvb_struct. fold sigs A ps.
+      assert (Hsne : sigs <> []) by (subst sigs; destruct l; [congruence|discriminate]).
+      unfold tuple_bytes. destruct sigs eqn:Hsg; [congruence|]. rewrite <- Hsg in *. rewrite Hfx. reflexivity. }
+    rewrite Hgvb in *. set (k := N.of_nat (length toffs)).
+    set (w := offset_width (len data) k).
+    assert (Hw1 : 1 <= w) by apply offset_width_pos.
+    assert (HF : framing (len data) (rev toffs) = offs_enc w (rev toffs)).
+    { unfold framing. rewrite rev_length. reflexivity. }
+    assert (HlenF : len (framing (len data) (rev toffs)) = w * k).
+    { rewrite HF, len_offs_enc, rev_length. reflexivity. }
+    assert (Hsm : len data + 8 * k <= 18446744073709551615).
+    { rewrite len_app, HlenF in Hsmall. change (2 ^ 60) with 1152921504606846976 in Hsmall. nia. }
+    set (p := padn (r_pos0 st + r_pos st) A).
+    unfold gde. rewrite (gde_gen_struct read_last f st sigs Hs). rewrite Hs, Hal.
+    rewrite (gparse_padding_starts st A _ (holds_starts _ _ Hst)). cbn [bind]. fold p.
+    apply holds_after_pad in Hst. fold p in Hst.
+    assert (Hal2 : (r_pos0 (adv st p) + r_pos (adv st p)) mod A = 0).
+    { cbn [adv r_pos0 r_pos]. rewrite N.add_assoc. subst p. now apply padn_after. }
+    change (r_sig (adv st p)) with (r_sig st). rewrite Hs, Hal.
+    rewrite (gparse_padding_aligned _ _ HA Hal2). cbn [bind].
+    change (r_dep (adv st p)) with (r_dep st). rewrite Hinc. cbn [bind]. cbv zeta.
+    cbn [rset_dep r_pos r_len adv].
+    destruct Hst as (t & Ht & Hb). cbn [adv r_pos r_rest r_len] in Ht, Hb. rewrite len_app, HlenF in Hb.
+    unfold big in Hl.
+    destruct (N.ltb_spec (r_len st) (r_pos st + p)); [lia|].
+    replace (r_len st - (r_pos st + p)) with (len data + w * k) by lia.
+    unfold w at 1. rewrite (for_encoded_framing (len data) k Hsm). fold w. cbn [bind].
+    set (st2 := rset_dep (adv st p) d').
+    destruct (struct_loop_var l HF Hlne f st2 (r_pos st + p) w 0 0 [] t A) as (st' & Hrun & Hp');
+      subst st2; cbn [rset_dep adv r_e r_dep r_len r_pos r_pos0 r_rest]; try assumption; try reflexivity; try lia.
+    - rewrite Hs', Ha', Ht'. assumption.
+    - unfold big. lia.
+    - cbn [adv r_pos0 r_pos] in Hal2. now rewrite <- N.add_assoc in Hal2 |- *.
+    - intros x Hx. apply pow2_div; [apply galigns_pow2|apply galign_pow2|]. apply galigns_ge. subst sigs. now apply in_map.
+    - fold ps sigs toffs. pose proof (tuple_offsets_le sigs ps 0) as Hle. fold toffs data in Hle. rewrite N.add_0_l in Hle.
+      eapply Forall_impl; [|exact Hle]. cbn. intros o Ho. apply offset_fits; [exact Hsm|]. fold w. lia.
+    - fold ps sigs toffs data. rewrite Ht, HF. now rewrite <- app_assoc.
+    - fold ps sigs toffs data k. lia.
+    - cbn [rset_dep adv r_len r_pos] in Hrun. unfold gde in Hrun. fold ps sigs toffs data k in Hrun.
+      replace (len data + w * k + (r_pos st + p)) with (r_pos st + p + len data + w * k) by lia.
+      rewrite Hrun. cbn [bind frev rev_append app]. exists st'. split; [reflexivity|exact Hp'].
   Qed.
 End R.
